@@ -15,11 +15,11 @@ inline bool pair_prefilter(const node&, const face&) { return true; }
 #elif CONTACT_MODEL_INDEX == 1
 typedef contact_node_node_via_coupling Model;
 inline void narrow(const Model& m, cell_ptr c1, cell_ptr c2, node& n, face* f) { m.resolve_contact(c1, c2, n, f); }
-inline bool pair_prefilter(const node& n, const face& f) { return n.normal_.dot(f.normal_) < Model::max_dot_product_repulsion_; }
+inline bool pair_prefilter(const node& n, const face& f) { static const double cos90 = std::cos(90. * M_PI / 180.);   /* the rule as documented (normals more than 90 degrees apart), with the harness's own constant: a node that has no normal (dot product exactly 0) is a candidate */ return n.normal_.dot(f.normal_) < cos90; }
 #else
 typedef contact_face_face_via_coupling Model;
 inline void narrow(const Model& m, cell_ptr c1, cell_ptr c2, node& n, face* f) { m.resolve_contact(c1, c2, n, f); }
-inline bool pair_prefilter(const node& n, const face& f) { return n.normal_.dot(f.normal_) < Model::max_dot_product_repulsion_; }
+inline bool pair_prefilter(const node& n, const face& f) { static const double cos90 = std::cos(90. * M_PI / 180.);   /* the rule as documented (normals more than 90 degrees apart), with the harness's own constant: a node that has no normal (dot product exactly 0) is a candidate */ return n.normal_.dot(f.normal_) < cos90; }
 #endif
 inline bool node_prefilter(const cell& c, const node& n) {
 #if CONTACT_MODEL_INDEX == 0
@@ -45,7 +45,7 @@ static const int N_ID_SCHEMES = 5;
 inline unsigned scheme_id(int scheme, unsigned i) { switch (scheme) { case 0: return i; case 1: return i + 1; case 2: return 2 * i; case 3: return 3 + 4 * i; default: return 70000 + 3 * i; /* beyond 16 bits: a long run with many divisions */ } }
 inline void prepare(const std::vector<cell_ptr>& cells, int id_scheme = 0) { for (unsigned i = 0; i < cells.size(); i++) { cell& c = *cells[i]; c.set_id(scheme_id(id_scheme, i)); c.set_local_id(i); c.update_all_face_normals_and_areas(); c.area_ = c.compute_area(); c.volume_ = c.compute_volume();
 #if CONTACT_MODEL_INDEX != 0
-        c.compute_node_curvature_and_normals();
+        if (c.get_cell_type_id() != 1) c.compute_node_curvature_and_normals();   /* as in the solver: ecm_cell::apply_internal_forces does nothing, the nodes of an ECM cell never get a normal or a curvature */
 #endif
     } }
 } // namespace cx
